@@ -16,7 +16,6 @@ structure Topo.WF (t : Topo) : Prop where
 structure View where
   alive : Nat → Bool
   running : Nat → Bool
-  half : Nat → Bool
   cleared : Nat → Bool
   downOpen : Nat → Bool
   sent : Nat → Bool
@@ -24,13 +23,12 @@ structure View where
   copen : Nat → Bool
 
 def State.view (s : State) : View :=
-  ⟨s.alive, s.running, s.half, s.cleared, s.downOpen, s.sentShutdown, s.upOpen, s.copen⟩
+  ⟨s.alive, s.running, s.cleared, s.downOpen, s.sentShutdown, s.upOpen, s.copen⟩
 
 def View.gone (v : View) (i : Nat) : Bool := !(v.alive i) || !(v.running i)
 
 structure InvV (t : Topo) (v : View) : Prop where
   srv : v.alive 0 = true
-  half : ∀ i, v.half i = false
   wrk : ∀ i, t.kind i = .worker → v.running i = true
   clients : v.running 0 = false → ∀ c, v.copen c = false
   down : ∀ p e, t.isChild p e = true → v.alive p = true → v.running p = true →
@@ -40,12 +38,11 @@ structure InvV (t : Topo) (v : View) : Prop where
     v.gone (t.parent e) = true ∨ v.downOpen e = false
   sent : ∀ p e, t.isChild p e = true → v.running p = false → v.sent e = true ∨ v.gone e = true
 
-/-- the invariant of runs in which no outgoing thread resets -/
+/-- the invariant of all runs -/
 def Inv (t : Topo) (s : State) : Prop := InvV t s.view
 
 theorem inv_init (t : Topo) : Inv t init where
   srv := rfl
-  half := fun _ => rfl
   wrk := fun _ _ => rfl
   clients := fun h => by simp [State.view, init] at h
   down := fun _ _ _ _ _ => ⟨rfl, rfl⟩
@@ -61,7 +58,6 @@ def shutV (t : Topo) (v : View) (p : Nat) (xc : Nat → Bool) : View :=
   let live := fun e => t.isChild p e && !(v.cleared p)
   { alive := v.alive
     running := upd v.running p false
-    half := upd v.half p false
     cleared := upd v.cleared p true
     downOpen := fun e => if live e then false else v.downOpen e
     sent := fun e => v.sent e || (!(xc e) && (live e && v.downOpen e))
@@ -93,7 +89,7 @@ theorem InvV.kill {t : Topo} {v : View} (h : InvV t v) (w : Nat) (hw : w ≠ 0) 
   have hal : ∀ i, (killV v w).alive i = true → v.alive i = true := by
     intro i x; simp only [killV, upd_apply] at x; split at x <;> simp_all
   have hg := View.gone_mono (v := v) (v' := killV v w) hal (fun _ x => x)
-  refine ⟨?_, h.half, h.wrk, h.clients, fun p e hc ha hr => h.down p e hc (hal p ha) hr, h.upc,
+  refine ⟨?_, h.wrk, h.clients, fun p e hc ha hr => h.down p e hc (hal p ha) hr, h.upc,
     fun e he hr ha hu => ?_, fun p e hc hr => ?_⟩
   · have := h.srv
     simp only [killV, upd_apply]
@@ -107,14 +103,14 @@ theorem InvV.kill {t : Topo} {v : View} (h : InvV t v) (w : Nat) (hw : w ≠ 0) 
     · exact Or.inr (hg _ h1)
 
 theorem InvV.cClose {t : Topo} {v : View} (h : InvV t v) (c : Nat) : InvV t (cCloseV v c) := by
-  refine ⟨h.srv, h.half, h.wrk, fun hr c' => ?_, h.down, h.upc, h.upe, h.sent⟩
+  refine ⟨h.srv, h.wrk, fun hr c' => ?_, h.down, h.upc, h.upe, h.sent⟩
   have := h.clients hr c'
   simp only [cCloseV, upd_apply]
   split <;> simp_all
 
 theorem InvV.upClose {t : Topo} {v : View} (h : InvV t v) (n : Nat)
     (heof : (v.alive (t.parent n) && v.downOpen n) = false) : InvV t (upCloseV v n) := by
-  refine ⟨h.srv, h.half, h.wrk, h.clients, h.down, fun g hg hr => ?_, fun e he hr ha hu => ?_, h.sent⟩
+  refine ⟨h.srv, h.wrk, h.clients, h.down, fun g hg hr => ?_, fun e he hr ha hu => ?_, h.sent⟩
   · have := h.upc g hg hr
     simp only [upCloseV, upd_apply]; split <;> simp_all
   · simp only [upCloseV, upd_apply] at hu
@@ -135,10 +131,8 @@ theorem InvV.shut {t : Topo} (_wf : t.WF) {v : View} (h : InvV t v) {p : Nat} {x
   have hrl : ∀ i, (shutV t v p xc).running i = true → v.running i = true := by
     intro i x; simp only [shutV, upd_apply] at x; split at x <;> simp_all
   have hg := View.gone_mono (v := v) (v' := shutV t v p xc) (fun _ x => x) hrl
-  refine ⟨h.srv, fun i => ?_, fun i hi => ?_, fun h0 c => ?_, fun q e hc haq hrq => ?_, fun g hg0 hrg => ?_,
+  refine ⟨h.srv, fun i hi => ?_, fun h0 c => ?_, fun q e hc haq hrq => ?_, fun g hg0 hrg => ?_,
     fun e he hre hae hue => ?_, fun q e hc hrq => ?_⟩
-  · have := h.half i
-    simp only [shutV, upd_apply]; split <;> simp_all
   · have := h.wrk i hi
     simp only [shutV, upd_apply]
     split
@@ -268,14 +262,14 @@ theorem Inv.shutdownNode {t : Topo} (wf : t.WF) {s : State} (h : Inv t s) {p : N
   unfold Inv; rw [view_shutdownNode]
   unfold State.loopOk at hl
   simp only [Bool.and_eq_true, bne_iff_ne, ne_eq] at hl
-  exact InvV.shut wf h hl.1.1.2 hl.1.2 hl.1.1.1.2 (fun _ x => by cases x)
+  exact InvV.shut wf h hl.1.2 hl.2 hl.1.1.2 (fun _ x => by cases x)
 
 theorem Inv.systemError {t : Topo} (wf : t.WF) {s : State} (h : Inv t s) {p : Nat}
     (hl : s.loopOk t p = true) : Inv t (systemError t s p) := by
   unfold Inv; rw [view_systemError]
   unfold State.loopOk at hl
   simp only [Bool.and_eq_true, bne_iff_ne, ne_eq] at hl
-  exact InvV.shut wf h hl.1.1.2 hl.1.2 hl.1.1.1.2 (fun _ x => by cases x)
+  exact InvV.shut wf h hl.1.2 hl.2 hl.1.1.2 (fun _ x => by cases x)
 
 theorem Inv.congr {t : Topo} {s s' : State} (h : Inv t s) (hv : s'.view = s.view) : Inv t s' := by
   unfold Inv; rw [hv]; exact h
@@ -289,8 +283,8 @@ theorem Inv.clientGone {t : Topo} (wf : t.WF) {s : State} (h : Inv t s) (hl : s.
 
 theorem Inv.handleRequest {t : Topo} (wf : t.WF) {s : State} (h : Inv t s) (hl : s.loopOk t 0 = true)
     (c m : Nat) (em : List (Dest × Msg)) : Inv t (handleRequest t s c m em) := by
-  have hbad : Inv t (Crash.clientGone t (s.put 0 [(.client c, .error)]) c em) :=
-    Inv.clientGone (s := s.put 0 [(Dest.client c, Msg.error)]) wf (h.congr rfl) hl c em
+  have hbad : Inv t (Crash.clientGone t { s with toClient := upd s.toClient c (s.toClient c ++ [.error]) } c em) :=
+    Inv.clientGone (s := { s with toClient := upd s.toClient c (s.toClient c ++ [.error]) }) wf (h.congr rfl) hl c em
   unfold Crash.handleRequest
   simp only
   split
@@ -303,11 +297,19 @@ theorem Inv.handleRequest {t : Topo} (wf : t.WF) {s : State} (h : Inv t s) (hl :
       · exact hbad
     · exact hbad
 
-/-- every transition that is not an outgoing-thread reset keeps the invariant -/
+/-- every transition keeps the invariant -/
 theorem step_inv {t : Topo} (wf : t.WF) {s s' : State} {l : Label} (hi : Inv t s)
-    (h : step t s l = some s') (hl : l.isOutReset = false) : Inv t s' := by
+    (h : step t s l = some s') : Inv t s' := by
   cases l with
-  | outReset n => cases hl
+  | flushDrop n =>
+    simp only [step] at h
+    unfold flushDrop at h
+    split at h
+    · cases h
+    split at h
+    · cases h
+    split at h <;> cases h
+    exact hi.congr rfl
   | crash n tr =>
     simp only [step, crash] at h
     split at h
@@ -329,7 +331,7 @@ theorem step_inv {t : Topo} (wf : t.WF) {s s' : State} {l : Label} (hi : Inv t s
     have hloop' := hloop
     unfold State.loopOk at hloop'
     simp only [Bool.and_eq_true, bne_iff_ne, ne_eq] at hloop'
-    have hcl := (hi.down p e hch hloop'.1.1.2 hloop'.1.2).2
+    have hcl := (hi.down p e hch hloop'.1.2 hloop'.2).2
     have closeShut : Inv t (shutdownNode t { s with downOpen := upd s.downOpen e false } p) →
         True := fun _ => trivial
     split at h
@@ -341,7 +343,7 @@ theorem step_inv {t : Topo} (wf : t.WF) {s s' : State} {l : Label} (hi : Inv t s
       have key : Inv t (shutdownNode t { s with downOpen := upd s.downOpen e false } p) := by
         unfold Inv
         rw [view_closeShutdown t s p e hch hcl]
-        refine InvV.shut wf hi hloop'.1.1.2 hloop'.1.2 hloop'.1.1.1.2 (fun e' x => ?_)
+        refine InvV.shut wf hi hloop'.1.2 hloop'.2 hloop'.1.1.2 (fun e' x => ?_)
         have : e' = e := by simpa using x
         subst this; exact heof'
       split at h
@@ -438,11 +440,6 @@ theorem step_inv {t : Topo} (wf : t.WF) {s s' : State} {l : Label} (hi : Inv t s
     · split at h
       · cases h
       split at h <;> cases h <;> exact hi.congr rfl
-  | wake n c =>
-    simp only [step, wake] at h
-    have := hi.half n
-    simp only [State.view] at this
-    simp [this] at h
   | wsend w m =>
     simp only [step] at h
     unfold wsend at h
